@@ -439,14 +439,20 @@ class Interp:
         if s is not None:
             self._drop(s)
 
-    def _check_extent(self, f, before, what):
+    def _check_extent(self, f, before, what, disturbed=None):
         """CountingFile clause: reading base file f only touches image bytes inside its extent."""
         if self.cf is None or f['where'] != 'base' or f.get('loc') is None:
             return
         lo, hi = f['loc'], f['loc'] + f['size']
         bad = [(o, n) for (o, n) in self.cf.log[before:] if o < lo or o + n > hi]
         self.col.bump('extent-checks')
-        if bad:
+        if bad and disturbed:
+            # returned data matched by coincidence (short reads of random bytes), but it was taken from another
+            # place of the shared backing file: same family as interleave/read-wrong-bytes
+            self.fail('C16/interleave/read-outside-file', 'extent',
+                      '%s read image bytes %s outside the extent [%d, %d) of %s (the returned data equals the model by '
+                      'coincidence); the backing file was used by: %s' % (what, bad[:4], lo, hi, f['iso'], '; '.join(disturbed[-4:])))
+        elif bad:
             self.fail('C16/extent/read-outside-file', 'extent',
                       '%s read image bytes %s outside the extent [%d, %d) of %s' % (what, bad[:4], lo, hi, f['iso']))
 
@@ -607,7 +613,7 @@ class Interp:
                           '%s at position %d returned %s, model %s' % (call_desc, before, _short(got), _short(want)))
             self._resync(s)
         else:
-            self._check_extent(f, cf_before, call_desc)
+            self._check_extent(f, cf_before, call_desc, disturbed)
             self._check_pos(s, opname, before)
         self._check_others(but=s)
 
